@@ -16,6 +16,7 @@ import contextlib
 import io
 import json
 import os
+import signal
 import random
 import sys
 import warnings
@@ -261,7 +262,24 @@ class World:
         return ret, exc
 
 
-def run_history(hist):
+class WallClock(BaseException):
+    """a call into the library is taking real time (it loops, or waits for something)"""
+
+
+def _alarm(_signum, _frame):
+    raise WallClock()
+
+
+def run_history(item):
+    signal.signal(signal.SIGALRM, _alarm)
+    signal.setitimer(signal.ITIMER_REAL, 15)
+    try:
+        return _run_history(item)
+    finally:
+        signal.setitimer(signal.ITIMER_REAL, 0)
+
+
+def _run_history(hist):
     sink = io.StringIO()
     out_steps = []
     with contextlib.redirect_stdout(sink):
